@@ -36,3 +36,8 @@ package model
 //@ ensures forall k string :: inmap(r.Namespaces, k) <==> inmap(c.Namespaces, k)
 //@ ensures forall k string :: inmap(r.Namespaces, k) ==> r.Namespaces[k].Shards != nil && fresh(r.Namespaces[k].Shards)
 //@ note trusted: deep copy (the copied shard contents are not specified here)
+
+//@ func ShardMetadata.Clone
+//@ trusted
+//@ modifies nothing
+//@ note trusted: deep copy of the shard metadata (content not specified here)
